@@ -154,7 +154,16 @@ def merge_wants(msg, wants):
     w = json.loads(json.dumps(wants[0]))
     for o in wants[1:]:
         for k, s in enumerate(o["opt"]):
-            if s["p"]: w["opt"][k] = s
+            if s["p"]: w["opt"][k] = json.loads(json.dumps(s))
+    # TLC fills contents by position in the input; single-element values of equal-length elements therefore carry the SAME
+    # octets.  In a composed value every element gets contents of its own (salted by its slot), so that an element that
+    # reads or overwrites a neighbour's storage shows.
+    if len(wants) > 1:
+        optslots = [s_ for s_ in TBL[msg]["slots"] if not s_["mand"]]
+        for k, (s, ts) in enumerate(zip(w["opt"], optslots)):
+            if s["p"] and not ts["half"]:
+                n = s["len"] if ts["lsz"] > 0 else len(s["v"])
+                s["v"] = [(x + 29 * (k + 1) + i * (k % 7)) % 256 if i < n else x for i, x in enumerate(s["v"])]
     return w
 
 
@@ -183,8 +192,20 @@ def hdr_variants(name, inp):
         for v in (0x10, 0xF7):
             out.append(inp[:1] + [v] + inp[2:])
     elif t["family"] == "GSM" and len(inp) >= 4:
-        for a, b in ((5, 7), (0xFE, 0x41)):
+        for a, b in ((5, 7), (0xFE, 0x41), (0x0F, 0xC8), (0x80, 0xFF)):
             out.append(inp[:1] + [a, b] + inp[3:])
+    return out
+
+
+def hdr_sweep(name, inp, step=1):
+    """every value of each header octet that routing and framing do not interpret, one octet at a time (a header octet
+    written or read through a text / signed / narrowed conversion is right for most values and wrong for a range)"""
+    t = TBL[name]; out = []
+    if t["family"] == "GMM" and len(inp) >= 3:
+        out += [inp[:1] + [v] + inp[2:] for v in range(0, 256, step)]
+    elif t["family"] == "GSM" and len(inp) >= 4:
+        out += [inp[:1] + [v] + inp[2:] for v in range(0, 256, step)]
+        out += [inp[:2] + [v] + inp[3:] for v in range(0, 256, step)]
     return out
 
 
